@@ -442,7 +442,8 @@ def run(ck: Check):
                 ids = [d.get("id") for d in sp.lits if isinstance(d.get("id"), str)]
                 commented = c13_gen.add_comments(spec, ck.rng, ids)
                 real2 = compare_case(ck, drv, U, commented, None, "commented", [])
-                if not same_outcome(real, real2):
+                real3 = real_pipeline(U, strip_comments(copy.deepcopy(commented)))
+                if not same_outcome(real, real2) or not same_outcome(real3, real2):
                     found.append(("comment-has-effect", commented, None, [summar(real["outcome"]), summar(real2["outcome"])]))
         # ---- json_factory helpers (implementation only)
         try:
@@ -521,19 +522,25 @@ def report(ck, U, ok, broken, found, note):
         # group by signature, minimise one witness of each
         by = {}
         for sig, spec, tag, detail in found:
+            if sig.startswith("factory:"):
+                sig = factory_sig(sig, str(detail))
             by.setdefault(sig, []).append((spec, tag, detail))
         for sig, lst in sorted(by.items()):
             lst.sort(key=lambda x: len(json.dumps(x[0])))
             spec, tag, detail = lst[0]
             if sig.startswith("factory:"):
-                ck.violation(sig, f"json_factory output does not evaluate like the directly constructed object: {detail}",
-                             {"factory_case": spec, "detail": detail})
+                ck.violation(sig, f"{spec.get('helper')}.json_factory output does not evaluate like the directly "
+                                  f"constructed object ({len(lst)} argument form(s)): {str(detail)[:260]}",
+                             {"factory_case": spec, "detail": detail,
+                              "all_variants": [x[0].get("variant") for x in lst]})
                 continue
             pred = make_pred(U, sig)
             small = shrink(spec, pred) if pred else spec
             what = {
-                "duplicate-id-accepted": "a specification defining one id twice is accepted; two distinct objects carry the id "
-                                         "and the registry keeps only one",
+                "duplicate-id-accepted": "two distinct object instances carry one id after an ACCEPTED load (an id was defined "
+                                         "twice, or a reference did not resolve to the registered instance)",
+                "registered-under-other-id": "an object is registered under a key that is not its id",
+                "holder-of-unregistered-id": "a reachable object carries an id the registry does not know",
                 "comment-has-effect": "underscore keys / ignored objects change what is loaded",
             }.get(sig, f"malformed specification accepted ({sig})")
             ck.violation("process_object:" + sig, what + ": " + json.dumps(small)[:300],
@@ -547,6 +554,17 @@ def report(ck, U, ok, broken, found, note):
                      found_input=False)
 
 
+def factory_sig(sig, detail):
+    """one signature per helper and cause (not per argument form)"""
+    helper = sig.split(":")[1]
+    m = re.search(r"raised (\w+): ([^;(]{0,40})", detail)
+    if m:
+        cause = "load-raises-" + m.group(1) + "-" + re.sub(r"[^A-Za-z]+", "-", re.sub(r"`[^']*'", "", m.group(2))).strip("-")[:30]
+    else:
+        cause = "differs-" + re.sub(r"[^A-Za-z]+", "-", re.sub(r"\[[^\]]*\]", "", detail)[:40]).strip("-")
+    return f"factory:{helper}:{cause}"
+
+
 def make_pred(U, sig):
     if sig == "duplicate-id-accepted":
         def pred(spec):
@@ -554,7 +572,23 @@ def make_pred(U, sig):
             return oc[0] == "ok" and (any(b[0] == "two-objects-one-id" for b in sharing_violations(oc[1], oc[2]))
                                       or dup_literal_ids(spec))
         return pred
+    if sig == "comment-has-effect":
+        def pred2(spec):
+            return not same_outcome(real_pipeline(U, spec), real_pipeline(U, strip_comments(copy.deepcopy(spec))))
+        return pred2
     return None
+
+
+def strip_comments(j):
+    """the property's own reading of a comment, independent of remove_comments: drop keys starting with '_',
+    drop dicts whose `ignore` is truthy (as list elements or dict values)"""
+    def ign(v):
+        return isinstance(v, dict) and bool(v.get("ignore", False))
+    if isinstance(j, list):
+        return [strip_comments(x) for x in j if not ign(x)]
+    if isinstance(j, dict):
+        return {k: strip_comments(v) for k, v in j.items() if not k.startswith("_") and not ign(v)}
+    return j
 
 
 def dup_literal_ids(spec):
@@ -577,6 +611,11 @@ def dup_literal_ids(spec):
 
 def replay(path: str) -> int:
     obj = json.loads(Path(path).read_text())
+    if "factory_case" in obj:
+        use_repo()
+        import c13_factory
+
+        return c13_factory.replay_case(obj["factory_case"])
     if "spec" not in obj:
         print("replay names broken obligations only:", obj.get("broken_obligations"), obj.get("mismatches"))
         return 1
@@ -593,6 +632,14 @@ def replay(path: str) -> int:
     real = real_pipeline(U, spec)
     oc = real["outcome"]
     print("specification:", json.dumps(spec))
+    if obj.get("signature", "").endswith("comment-has-effect"):
+        base = strip_comments(copy.deepcopy(spec))
+        real0 = real_pipeline(U, base)
+        same = same_outcome(real0, real)
+        print("without the comments:", json.dumps(base))
+        print("  loads as  :", summar(real0["outcome"]))
+        print("with them   :", summar(oc), "" if same else "  VIOLATES: comments have an effect")
+        return 0 if same else 1
     if oc[0] == "ok":
         bad = sharing_violations(oc[1], oc[2])
         print("accepted; registry keys:", list(oc[2].keys()))
